@@ -11,6 +11,7 @@ import itertools
 
 import common
 import rx
+import simnet
 from rx import F
 
 
@@ -108,6 +109,52 @@ def timeline_check(ctx, inp, frames, sock, key):
                     size=len(frames) * 10 + sum(len(f.data) for f in frames))
 
 
+def run_same_object_again(ctx):
+    """the SECOND (third) connection of one WebSocket object: the first ended by end of stream seen in a receive call (after
+    something had been written on it), by close(), or by shutdown(); then `connect()` again on the same object — the pings
+    of the new connection are answered on the NEW transport, once each.  Real runs, oracle only."""
+    import websocket
+    rnd = ctx.rng("same-object")
+    key = b"\x11\x22\x33\x44"
+    for it in range(40 if ctx.thorough() else 12):
+        ws = websocket.WebSocket()
+        ws.set_mask_key(lambda n: key)
+        ends = [rnd.choice(["eof", "close", "shutdown"]) for _ in range(rnd.randint(1, 2))]
+        socks = []
+        for e in ends:
+            sk = simnet.connect_again(ws, [("chunk", simnet.srv_frame(9, b"first")), ("chunk", simnet.srv_frame(1, b"x"))], tail="eof")
+            socks.append(sk)
+            try:
+                ws.send("hello")
+                ws.recv()
+                if e == "eof":
+                    ws.recv()
+                elif e == "close":
+                    ws.close(timeout=0)
+                else:
+                    ws.shutdown()
+            except Exception:  # noqa
+                pass
+        pings = [b"p%d" % j for j in range(rnd.randint(1, 3))]
+        evs = [("chunk", simnet.srv_frame(9, p)) for p in pings] + [("chunk", simnet.srv_frame(2, b"done"))]
+        last = simnet.connect_again(ws, evs, tail="timeout")
+        old_sent = [len(sk.sent) for sk in socks]
+        try:
+            r = ws.recv_data()
+            res = ("ret", r[0], bytes(r[1]))
+        except Exception as e:  # noqa
+            res = ("exn", common.canon_exc(e))
+        want = b"".join(bytes([0x8a, 0x80 | len(p)]) + key + bytes(b ^ key[i % 4] for i, b in enumerate(p)) for p in pings)
+        ctx.case(key=("same-object", it, tuple(ends), len(pings)), nontrivial=True, cls=f"same-object-again:{'-'.join(ends)}")
+        leaked = [i for i, sk in enumerate(socks) if len(sk.sent) != old_sent[i]]
+        if res != ("ret", 2, b"done") or bytes(last.sent) != want or leaked:
+            ctx.violate("each-ping-answered", "pings-of-a-later-connection-of-the-object-not-answered-on-its-transport",
+                        {"op": "connect / use / end (" + ", ".join(ends) + ") / connect again on ONE WebSocket object, then pings",
+                         "pings": [p.hex() for p in pings]},
+                        f"(2, b'done') returned; pongs {want.hex()} on the new transport; nothing more on the old ones",
+                        f"{res}; new transport got {bytes(last.sent).hex()}; old transports written to: {leaked}", size=len(ends) + len(pings))
+
+
 def run(ctx):
     ctx.rule = ("ping of every length 0..125 (and 126/127/200) alone; bursts; pings before/between/inside fragmented messages; "
                 "unsolicited pongs; random mixes; read with recv / recv_data(ctl) / recv_data_frame(ctl), single chunk and byte-wise "
@@ -187,6 +234,7 @@ def run(ctx):
                 inp = {"op": "recv x2 with EAGAIN on the pong's write", "frames": [f.desc() for f in frames], "eagain_at_send_calls": eagain,
                        "accepts": acc}
                 timeline_check(ctx, inp, frames, sock, key)
+    run_same_object_again(ctx)
 
 
 def search(ctx):
